@@ -248,7 +248,13 @@ pub fn stream_run(data: &[u8], cuts: &[usize], o: &Options) -> StreamRun {
             }
         }
         pieces.push((pos, data.len()));
+        // Stream is an io::Write: in every other run (odd number of cuts) flush() is called after each piece,
+        // the last one included - flushing must never change what finish() delivers
+        let flushing = cuts.len() % 2 == 1;
         'outer: for (pi, (a, b)) in pieces.iter().enumerate() {
+            if flushing && pi > 0 {
+                let _ = s.flush();
+            }
             let mut p = &data[*a..*b];
             let mut first = true;
             while !p.is_empty() || first {
@@ -271,6 +277,9 @@ pub fn stream_run(data: &[u8], cuts: &[usize], o: &Options) -> StreamRun {
                     }
                 }
             }
+        }
+        if flushing && failed_at.is_none() && zero_at.is_none() {
+            let _ = s.flush();
         }
         match s.finish() {
             Ok(_) => Ok(()),
